@@ -84,6 +84,8 @@ impl<T: Trace> Cc<T> {
 
         let res = try_state(|state| {
             if state.is_collecting() || state.is_dropping() {
+                #[cfg(feature = "verif-hooks")]
+                crate::verif::probe(22);
                 return None;
             }
 
@@ -94,6 +96,8 @@ impl<T: Trace> Cc<T> {
             }
 
             remove_from_list(cc.inner.cast());
+            #[cfg(feature = "verif-hooks")]
+            crate::verif::probe(21);
 
             // SAFETY: cc is unique
             let t = unsafe { ptr::read(cc.inner().get_elem()) };
@@ -177,6 +181,12 @@ impl<T: ?Sized + Trace> Cc<T> {
     #[inline(always)]
     pub(crate) fn inner(&self) -> &CcBox<T> {
         unsafe { self.inner.as_ref() }
+    }
+
+    #[cfg(feature = "verif-hooks")]
+    #[inline(always)]
+    pub(crate) fn verif_inner_ptr(&self) -> NonNull<CcBox<()>> {
+        self.inner.cast()
     }
 
     #[cfg(feature = "weak-ptrs")]
@@ -270,6 +280,8 @@ impl<T: ?Sized + Trace> Drop for Cc<T> {
         // A CcBox can be in list or queue only during collections while being into a list different than POSSIBLE_CYCLES.
         // In this case, no further action has to be taken, except decrementing the reference counter.
         if self.counter_marker().is_in_list_or_queue() {
+            #[cfg(feature = "verif-hooks")]
+            crate::verif::probe(2);
             decrement_counter(self);
             return;
         }
@@ -288,6 +300,8 @@ impl<T: ?Sized + Trace> Drop for Cc<T> {
                     self.inner().get_elem().finalize();
 
                     if self.counter_marker().counter() != 1 {
+                        #[cfg(feature = "verif-hooks")]
+                        crate::verif::probe(3);
                         // The object has been resurrected
                         handle_possible_cycle(self);
                         return;
@@ -296,6 +310,8 @@ impl<T: ?Sized + Trace> Drop for Cc<T> {
                 }
 
                 decrement_counter(self);
+                #[cfg(feature = "verif-hooks")]
+                crate::verif::probe(0);
                 remove_from_list(self.inner.cast());
 
                 let _dropping_guard = replace_state_field!(dropping, true, state);
@@ -327,6 +343,8 @@ impl<T: ?Sized + Trace> Drop for Cc<T> {
                 // _dropping_guard is dropped here, resetting state.dropping
             });
         } else {
+            #[cfg(feature = "verif-hooks")]
+            crate::verif::probe(1);
             handle_possible_cycle(self);
         }
     }
@@ -369,6 +387,8 @@ impl<T: Trace> CcBox<T> {
 
         unsafe {
             let ptr: NonNull<CcBox<T>> = cc_alloc(layout, state);
+            #[cfg(feature = "verif-hooks")]
+            crate::verif::observe(crate::verif::AllocEvent::BoxAlloc, ptr.as_ptr() as usize, layout.size(), layout.align());
             ptr::write(
                 ptr.as_ptr(),
                 CcBox {
@@ -471,9 +491,13 @@ impl<T: ?Sized + Trace> CcBox<T> {
                 let boxed = self.get_metadata_unchecked();
                 if boxed.as_ref().weak_counter_marker.counter() == 0 {
                     // There are no weak pointers, deallocate the metadata
+                    #[cfg(feature = "verif-hooks")]
+                    crate::verif::probe(15);
                     dealloc_other(boxed);
                 } else {
                     // There exist weak pointers, set the CcBox allocation not accessible
+                    #[cfg(feature = "verif-hooks")]
+                    crate::verif::probe(16);
                     boxed.as_ref().weak_counter_marker.set_accessible(false);
                 }
             }
@@ -630,10 +654,14 @@ impl CcBox<()> {
                         debug_assert!(root_list.iter().contains(ptr));
 
                         root_list.remove(ptr);
+                        #[cfg(feature = "verif-hooks")]
+                        crate::verif::probe(12);
                         non_root_list.add(ptr);
                     }
                 } else {
                     if counter_marker.is_in_possible_cycles() {
+                        #[cfg(feature = "verif-hooks")]
+                        crate::verif::probe(10);
                         let res = counter_marker.increment_tracing_counter();
                         debug_assert!(res.is_ok());
                         return;
@@ -644,6 +672,8 @@ impl CcBox<()> {
                     debug_assert!(res.is_ok());
 
                     queue.add(ptr);
+                    #[cfg(feature = "verif-hooks")]
+                    crate::verif::probe(11);
                     counter_marker.mark(Mark::InQueue);
                 }
             },
@@ -655,6 +685,8 @@ impl CcBox<()> {
                     debug_assert!(non_root_list.iter().contains(ptr));
 
                     counter_marker.mark(Mark::NonMarked);
+                    #[cfg(feature = "verif-hooks")]
+                    crate::verif::probe(13);
                     non_root_list.remove(ptr);
                     queue.add(ptr);
                     counter_marker.mark(Mark::InQueue);
@@ -713,6 +745,8 @@ impl BoxedMetadata {
     fn new(vtable: VTable, weak_counter_marker: WeakCounterMarker) -> NonNull<BoxedMetadata> {
         unsafe {
             let ptr: NonNull<BoxedMetadata> = alloc_other();
+            #[cfg(feature = "verif-hooks")]
+            crate::verif::observe(crate::verif::AllocEvent::OtherAlloc, ptr.as_ptr() as usize, core::mem::size_of::<BoxedMetadata>(), core::mem::align_of::<BoxedMetadata>());
             ptr::write(
                 ptr.as_ptr(),
                 BoxedMetadata {
